@@ -30,6 +30,38 @@ REDOPS = ("sum", "prod", "amax", "amin", "all", "any")
 SCALAR_HEADS = ("py", "nps")
 
 
+class HashSeedTag:
+    """user-defined symbolic communication tag whose hash depends on PYTHONHASHSEED"""
+
+    def __init__(self, name):
+        self.name = name
+
+    def __hash__(self):
+        return hash(("HashSeedTag", self.name))
+
+    def __eq__(self, other):
+        return isinstance(other, HashSeedTag) and other.name == self.name
+
+    def __repr__(self):
+        return f"HashSeedTag({self.name!r})"
+
+    def __reduce__(self):
+        return (HashSeedTag, (self.name,))
+
+
+def comm_tag(t):
+    """decode a JSON-able communication tag: int | str | ["tuple", ...] | ["frozenset", ...] | ["cls", name]"""
+    if isinstance(t, list):
+        if t[0] == "tuple":
+            return tuple(comm_tag(x) for x in t[1:])
+        if t[0] == "frozenset":
+            return frozenset(comm_tag(x) for x in t[1:])
+        if t[0] == "cls":
+            return HashSeedTag(t[1])
+        raise ValueError(t)
+    return t
+
+
 def tkey(t) -> str:
     return json.dumps(t, sort_keys=True)
 
@@ -79,7 +111,7 @@ def subterms(t):
     return out
 
 
-HEADS = {"ph", "dw", "dwv", "dwalias", "sp", "full", "zeros", "ones", "eye", "arange", "py",
+HEADS = {"recv", "send", "ph", "dw", "dwv", "dwalias", "sp", "full", "zeros", "ones", "eye", "arange", "py",
          "nps", "neg", "abs", "lnot", "fn", "bin", "cmp", "logic", "mm", "arctan2",
          "where", "astype", "red", "einsum", "matmul", "dot", "vdot", "stack",
          "concat", "roll", "transpose", "reshape", "expand_dims", "squeeze", "pad",
@@ -312,6 +344,10 @@ class PtBuilder:
             return sub(t[2])
         if h == "tag":
             return apply_tag(B(t[2]), t[1])
+        if h == "recv":
+            return pt.make_distributed_recv(src_rank=t[1], comm_tag=comm_tag(t[2]), shape=tuple(t[3]), dtype=np.dtype(t[4]))
+        if h == "send":
+            return pt.staple_distributed_send(B(t[1]), dest_rank=t[2], comm_tag=comm_tag(t[3]), stapled_to=B(t[4]))
         if h == "lpcall":
             from vf import lpkernels
             return lpkernels.build_pt(self, t)
@@ -380,6 +416,7 @@ class NpEval:
         self.warn = None
         self.eps = 0.0   # eps of the least precise floating dtype met anywhere
         self.nonfinite = False  # an intermediate of the NumPy evaluation is inf/NaN
+        self.recv_resolver = None   # (src_rank, tag) -> ndarray, for multi-rank programs
 
     def note(self, a):
         a = np.asarray(a)
@@ -620,6 +657,11 @@ class NpEval:
             return E(t[2])
         if h == "tag":
             return E(t[2])
+        if h == "recv":
+            return np.asarray(self.recv_resolver(t[1], t[2]))
+        if h == "send":
+            E(t[1])
+            return E(t[4])
         if h == "lpcall":
             from vf import lpkernels
             return lpkernels.eval_np(self, t)
